@@ -49,6 +49,11 @@ type Input struct {
 	Valid  string `json:"valid,omitempty"`  // a valid variant of the same plan (for the object re-use history)
 	Pos    int    `json:"pos,omitempty"`
 	Note   string `json:"note,omitempty"`
+	// direct calls of VerifyMultiSignature (kind direct-multi:*)
+	Keys []string `json:"keys,omitempty"`
+	Sigs []string `json:"sigs,omitempty"`
+	Hash string   `json:"hash,omitempty"`
+	M    int      `json:"m,omitempty"`
 }
 
 type Drv struct {
@@ -154,7 +159,7 @@ func (d *Drv) justify(in Input, o Outcome, views []SetView) {
 			}
 			for j, k := range v.Keys {
 				c.Eval()
-				ok[i][j] = realVerify(k.Pub, hash[:], sg) == "VTrue"
+				ok[i][j] = !k.OffCurve && realVerify(k.Pub, hash[:], sg) == "VTrue"
 			}
 		}
 		if got := maxMatching(ok, n); got < m {
@@ -316,6 +321,9 @@ func Run(c *hx.Ctx) {
 		if rin.Raw != "" {
 			d.W = NewWorld(c, NewPool())
 			d.replay(rin)
+		} else if len(rin.Keys) > 0 {
+			d.W = NewWorld(c, NewPool())
+			d.replayDirect(rin)
 		}
 		return
 	}
@@ -339,6 +347,7 @@ func Run(c *hx.Ctx) {
 	d.RunDup(dups)
 	d.OverSigned(1)
 	d.DupKeys()
+	d.Hostile()
 	d.Generate(bases)
 	c.Note(fmt.Sprintf("abstract-signature validation: %d crypto-library Verify calls compared with abs_verify", d.W.AbsN))
 }
